@@ -53,6 +53,14 @@ class C01(Check):
         for parsed in (False, True):
             yield {"schema": pts, "data": [("Point", {"x": 1, "y": 2, "z": 3}), ("v1.Point", {"x": 4, "y": 5}), ("Point", {"x": 6, "y": 7})], "parsed": parsed}
             yield {"schema": {"type": "array", "items": ens}, "data": [[("Level", "HIGH"), ("ns.Level", "HIGH"), ("Id", b"ab"), ("deep.ns.Id", b"cd"), None, ("Level", "LOW")]], "parsed": parsed}
+        # the default of a union field is a value of the FIRST branch even when it also conforms to a later one (here the
+        # later branch is a map of the enclosing record, whose own omitted field has that default again: writing it under the
+        # map branch never ends)
+        rec_dflt = {"type": "record", "name": "com.ex.X", "fields": [{"name": "u", "type": [
+            {"type": "record", "name": "ns.sub.X1", "fields": [{"name": "b", "type": {"type": "record", "name": "ns.sub.X2", "fields": [{"name": "value", "type": "string"}]}},
+                                                               {"name": "kids", "type": {"type": "map", "values": "float"}, "default": {"k": -2.25}}]},
+            {"type": "map", "values": "X"}], "default": {"b": {"value": "RED"}, "kids": {"k": 1.5}}}]}
+        yield {"schema": rec_dflt, "data": [{}, {"u": {"b": {"value": "z"}, "kids": {"a": 1.0}}}, {"u": {"k": {}}}], "parsed": False}
         vals = set()
         for k in range(0, 64):
             for s in (1, -1):
